@@ -318,6 +318,43 @@ class Ctx:
                         {'rule': rule, 'fn': f.id, 'what': what, 'required_atoms': pats, 'atoms': sendsmod.pretty(atoms_list[0][1])})
         return ok
 
+    def accumulates(self, rule, key, f, value_pats, what, init_pats=('C:zero',), min_sites=1):
+        """an accumulator: some local is updated by `+=` (AddAssign::add_assign) with a value deriving from value_pats, and every
+        plain assignment to that local is its zero initialisation (so `acc = x` in place of `acc += x` is reported)."""
+        sites = []
+        for c in f.calls:
+            if (c.defp or '').endswith('AddAssign::add_assign') and len(c.args) == 2:
+                if has_all(self.N.operand(f, c.args[1]), value_pats):
+                    sites.append(c)
+        if len(sites) < min_sites:
+            self.rep.ob(rule, key, False, '%s: no `+=` accumulation of a value deriving from %s found in %s' % (what, list(value_pats), f.id), self.loc(f))
+            return False
+        ok = True
+        for c in sites:
+            a0 = c.args[0]
+            acc = None
+            if a0[0] in ('m', 'c') and not a0[1][1]:
+                mr = getattr(f, '_mutref', {}).get(a0[1][0])
+                if mr:
+                    acc = mr[0]
+            if acc is None:
+                continue
+            for d in f.defs.get(acc, []):
+                if d[0] == '=' and not d[3][1]:
+                    at = self.N.rvalue(f, d[4])
+                    if not any(has_atom(at, p) for p in init_pats) or has_all(at, value_pats):
+                        ok = False
+                        self.rep.ob(rule, key, False, '%s: the accumulator is overwritten by a plain assignment deriving from %s' % (what, sendsmod.pretty(at)), self.loc(f, d[1]))
+                elif d[0] == 'call' and not (d[2].defp or '').endswith('::zero') and not (d[2].callee or '').endswith('::zero') and not (d[2].callee or '').endswith('::default'):
+                    at = self.N.call(f, d[2])
+                    if has_all(at, value_pats):
+                        ok = False
+                        self.rep.ob(rule, key, False, '%s: the accumulator is overwritten by the result of %s' % (what, d[2].callee), d[2].where)
+        if ok:
+            self.rep.ob(rule, key, True, '%s: accumulated with += at %d site(s)' % (what, len(sites)), sites[0].where,
+                        {'rule': rule, 'fn': f.id, 'what': what, 'sites': [c.where for c in sites]})
+        return ok
+
     # ------------------------------------------------------------------ K10 argument atoms
     def arg_has(self, rule, key, call, idx, pats, what, narrow=True, forbid=()):
         sl = self.N if narrow else self.S
